@@ -176,6 +176,13 @@ func (ex *Exec) execInstr(b *ssa.BasicBlock, st *State, in ssa.Instruction) {
 	case *ssa.RunDefers:
 		for i := len(st.defers) - 1; i >= 0; i-- {
 			d := st.defers[i]
+			if mc, ok := d.call.Common().Value.(*ssa.MakeClosure); ok && isRecoverGuard(mc.Fn.(*ssa.Function)) {
+				// `defer func() { if r := recover(); r != nil { ... } }()`: without a panic in flight recover() is nil
+				// and the guard does nothing; panicking executions are not modelled (they end at the panic)
+				vc.note("deferred recover guard skipped on non-panicking paths")
+				vc.assumed["panicking executions are not followed into deferred recover guards"] = true
+				continue
+			}
 			ex.execCommon(st, d.call.Common(), nil, d.call.Pos(), true)
 		}
 		st.defers = nil
@@ -890,4 +897,93 @@ func (ex *Exec) chanEvent(st *State, ghost string, when T) {
 	cur := ex.heapGet(st, name, SInt)
 	ex.heapSet(st, name, ex.define(name, Ite(when, Add(cur, IntLit(1)), cur)))
 	ex.heapWrites[name] = true
+}
+
+// isRecoverGuard: the function is `if r := recover(); r != nil { ... }` and nothing else, i.e. every effect lies under the
+// branch taken only while a panic is in flight.
+func isRecoverGuard(fn *ssa.Function) bool {
+	if fn == nil || len(fn.Blocks) == 0 {
+		return false
+	}
+	b0 := fn.Blocks[0]
+	iff, ok := b0.Instrs[len(b0.Instrs)-1].(*ssa.If)
+	if !ok {
+		return false
+	}
+	cmp, ok := iff.Cond.(*ssa.BinOp)
+	if !ok || cmp.Op != token.NEQ {
+		return false
+	}
+	isRecover := func(v ssa.Value) bool {
+		c, ok := v.(*ssa.Call)
+		if !ok {
+			return false
+		}
+		b, ok := c.Call.Value.(*ssa.Builtin)
+		return ok && b.Name() == "recover"
+	}
+	isNil := func(v ssa.Value) bool {
+		c, ok := v.(*ssa.Const)
+		return ok && c.IsNil()
+	}
+	// the tested value: the recover() call itself, or (unoptimised SSA) a load of the local it was stored to
+	holdsRecover := func(v ssa.Value) bool {
+		if isRecover(v) {
+			return true
+		}
+		ld, ok := v.(*ssa.UnOp)
+		if !ok || ld.Op != token.MUL {
+			return false
+		}
+		cell, ok := ld.X.(*ssa.Alloc)
+		if !ok {
+			return false
+		}
+		n := 0
+		for _, in := range b0.Instrs {
+			if st, ok := in.(*ssa.Store); ok && st.Addr == cell {
+				if !isRecover(st.Val) {
+					return false
+				}
+				n++
+			}
+		}
+		return n == 1
+	}
+	if !(holdsRecover(cmp.X) && isNil(cmp.Y)) && !(holdsRecover(cmp.Y) && isNil(cmp.X)) {
+		return false
+	}
+	for _, in := range b0.Instrs {
+		switch in := in.(type) {
+		case *ssa.DebugRef, *ssa.If, *ssa.BinOp, *ssa.Alloc:
+		case *ssa.Call:
+			if b, ok := in.Call.Value.(*ssa.Builtin); !isRecover(in) && !(ok && b.Name() == "ssa:deferstack") {
+				return false
+			}
+		case *ssa.Store:
+			if _, ok := in.Addr.(*ssa.Alloc); !ok {
+				return false
+			}
+		case *ssa.UnOp:
+			if _, ok := in.X.(*ssa.Alloc); !ok || in.Op != token.MUL {
+				return false
+			}
+		default:
+			return false
+		}
+	}
+	thenB := b0.Succs[0]
+	for _, b := range fn.Blocks[1:] {
+		if thenB.Dominates(b) {
+			continue
+		}
+		for _, in := range b.Instrs {
+			switch in.(type) {
+			case *ssa.Return, *ssa.Jump, *ssa.RunDefers, *ssa.DebugRef:
+			default:
+				return false
+			}
+		}
+	}
+	return true
 }
